@@ -501,6 +501,9 @@ macro_rules! impl_cache_processor {
                         self.start_ts.insert(key, Time::now());
                     }
                 }
+                #[cfg(transparencies_stretto_verif)]
+                crate::verif::counters::START_TS_LEN
+                    .store(self.start_ts.len() as u64, std::sync::atomic::Ordering::SeqCst);
             }
 
             #[inline]
@@ -509,6 +512,9 @@ macro_rules! impl_cache_processor {
                     self.metrics.track_eviction(ts.elapsed().as_secs() as i64);
                     self.start_ts.remove(&item.index);
                 }
+                #[cfg(transparencies_stretto_verif)]
+                crate::verif::counters::START_TS_LEN
+                    .store(self.start_ts.len() as u64, std::sync::atomic::Ordering::SeqCst);
             }
         }
     };
@@ -724,6 +730,8 @@ macro_rules! impl_cache_cleaner {
 
             #[inline]
             fn handle_item(&mut self, item: $item<V>) {
+                #[cfg(transparencies_stretto_verif)]
+                crate::verif::counters::inc(&crate::verif::counters::ITEMS_DRAINED);
                 match item {
                     $item::New {
                         key,
